@@ -220,6 +220,42 @@ def aliases_of(fa: C.FuncAST) -> Canon:
     return cn
 
 
+def const_locals(fa: C.FuncAST, cn: Optional[Canon] = None) -> Callable[[str], str]:
+    """Substitution of the function's write-once value locals (`const auto x = <expr>;`, declared once, never assigned) by their
+    initialisers in a canonical text: naming an accessor call with a local changes no behaviour, so an argument comparison must not see it.
+    Only for expressions whose meaning does not depend on WHEN they are evaluated inside the function (accessors)."""
+    cn = cn or aliases_of(fa)
+    decls: Dict[str, List[C.Node]] = {}
+    for n in fa.body.walk():
+        if isinstance(n, C.Decl):
+            for d in n.decls:
+                if d.bindings is None and d.name:
+                    decls.setdefault(d.name, []).append((n, d))
+    assigned = {cn(x.l) for x in fa.body.walk() if isinstance(x, C.Binary) and x.op in C._ASSIGN}
+    assigned |= {cn(x.e) for x in fa.body.walk() if isinstance(x, (C.Unary, C.Postfix)) and x.op in ("++", "--")}
+    table: Dict[str, str] = {}
+    for nm, ds in decls.items():
+        if len(ds) != 1 or nm in assigned or nm in {p for _, p in fa.params}:
+            continue
+        st, d = ds[0]
+        specs = " ".join(st.specs) if isinstance(st.specs, (list, tuple)) else str(st.specs or "")
+        ty = st.type if isinstance(st.type, str) else ""
+        if "const" not in specs + " " + ty or d.ref or d.ptr or d.init is None or isinstance(d.init, (C.Lambda, C.Init)):
+            continue
+        table[nm] = cn(d.init)
+
+    def subst(text: str) -> str:
+        for _ in range(3):
+            new = text
+            for nm, init in table.items():
+                new = re.sub(rf"(?<![\w.>:]){re.escape(nm)}(?!\w)", f"({init})" if re.search(r"[ &|?<>=+\-*/]", init) else init, new)
+            if new == text:
+                break
+            text = new
+        return text
+    return subst
+
+
 def loop_shape(loop: C.Node, cn: Canon) -> Dict[str, Any]:
     """Induction-variable shape of a `for` loop (K3)."""
     shape: Dict[str, Any] = {"kind": type(loop).__name__}
